@@ -1197,7 +1197,13 @@ class Models:
     def _minmax(self, ip, a, kw, node, ismax: bool):
         items = a if len(a) > 1 else ip.concrete_iter(a[0])
         if items is None:
-            raise Unsupported("max/min over symbolic-length iterable")
+            h = getattr(ip.reg, "minmax_hook", None)
+            if h is None or "key" in kw or "default" in kw:
+                raise Unsupported("max/min over symbolic-length iterable")
+            S = self.as_seq_iter(ip, a[0])
+            if ip.path.branch(self.len_term(S.n) <= 0, "max()/min() of an empty sequence"):
+                ip.raise_exc("ValueError", "max() arg is an empty sequence")
+            return h(ip, S, ismax)
         if "key" in kw:
             raise Unsupported("max/min with key")
         items = [self.unopt(ip, x) for x in items]
